@@ -276,3 +276,7 @@ impl<'a> Message<'a> {
         })
     }
 }
+
+#[cfg(all(test, feature = "pendulum_project_ntpd_rs_verif"))]
+#[path = "../../../../verif/harness/statime_wire/messages.rs"]
+mod verif_messages;
